@@ -244,6 +244,29 @@ CLAIMED = {
              "but remains a model. One fixture; data frames outside. Counterexamples are replayed on a "
              "real HDF5 file.",
         ref="9 (as built)"),
+    "C18": dict(
+        text="PARTIAL. For old-format files built from 5 property sets (0-3 properties of int / float / "
+             "text / bool values in nested sections; uniform, mixed and absent per-value extras; an empty "
+             "property; a property whose name collides with an extras name) x 0-2 alias range dimensions x "
+             "5 format versions older than the library x valid / invalid / missing file id, and for EVERY "
+             "interruption point n >= 1 (unbounded integer; the process dies at the n-th open of the file "
+             "with write intent, i.e. between any two conversion steps - tasks and single property / "
+             "dimension conversions alike): an interrupted run reports failure, leaves the header version "
+             "untouched, the file is still refused for writing and still scheduled for upgrade; a re-run "
+             "completes; the result is openable for writing, has the library's version and a valid file id "
+             "(kept if it was valid), reads - through nixio - exactly as the old file read before (property "
+             "values, units, definitions; arrays; alias descriptors keep ticks, unit and label and are "
+             "stored as links), holds no compound property, keeps every per-value extra retrievable, and "
+             "a further upgrade changes nothing. A file whose version is the library's or newer (5 "
+             "triples) is not opened for writing at all and stays identical.",
+        note="The real nixio/cmd/upgrade.py and the real File / Property / RangeDimension read paths run "
+             "symbolically on fakeh5 (compound datasets, high-level File and hard links pinned to h5py by "
+             "the differential script). NOT decided: interruptions INSIDE a conversion step and what "
+             "libhdf5 leaves on disk then (the statement speaks of points between steps; every step "
+             "closes the file), HDF5's own conversion of compound values, concurrent upgrade processes. "
+             "Counterexamples are replayed on a real HDF5 file with the interruption injected at the same "
+             "open.",
+        ref="12 (as built)"),
     "C01": dict(
         text="PARTIAL - only the Python-side arithmetic and decisions of nixio are decided: "
              "(i) DataSet.append for ranks 1-3 (quick) / 1-4 (thorough), ALL non-negative extents of the "
@@ -272,9 +295,6 @@ NOT_APPLICABLE = {
     "C17": "Solver-based checking not applicable: flush/close durability under SIGKILL is libhdf5 cache "
            "flushing plus the kernel page cache; the repository's share is two delegating lines with "
            "no input to make symbolic, and crash points cannot be encoded with the tools present.",
-    "C18": "Solver-based checking not applicable: cmd/upgrade.py manipulates h5py compound datasets and "
-           "moves objects directly; interruption points are HDF5 file states. Only the 'version bump "
-           "is scheduled last' ordering is within reach, far too little to claim the property.",
     "C20": "Solver-based checking not applicable: copy completeness/independence is decided by H5Ocopy "
            "inside libhdf5; moreover H5Group.copy uses np.string_, which no longer exists in the "
            "installed NumPy 2.x (all copy tests are in the baseline's always-fail list).",
